@@ -126,6 +126,16 @@ def generate(rng, tier):
     cases.append(mk([[0, [["X", [None, [2, "X", False]]]]], [1, []]]))      # names missing face
     cases.append(mk([[0, [["X", [None, [1, "X", False]]]]]]))               # neighbour has no table
     cases.append(mk([[0, []], [1, []]]))
+    # malformed x link-free tables: the refusal must not depend on a link being inspected
+    nolink = [[[0, [["X", [None, None]]]], [1, [["X", [None, None]]]]], [], [[0, []]],
+              [[0, [["X", [None, None]], ["Y", [None, None]]]]]]
+    for t in nolink + [random_reciprocal(rng, 2), random_reciprocal(rng, 3)]:
+        nf = max([f for f, _ in t] + [1]) + 1
+        cases.append(mk(t, nfaces=nf, facedim="tile"))
+        cases.append(mk(t, nfaces=nf, dsdims=["y", "x"]))
+        cases.append(mk(t, nfaces=nf, extra_dict=[["tile", t]]))
+        cases.append(mk(t, nfaces=nf, axes=("X",)))
+        cases.append(mk(t, nfaces=nf))
     if tier == "thorough":
         # all single and double edits of one consistent 2 faces x 2 axes table, exhaustively
         opts = [None] + [[f, a, r] for f in (0, 1) for a in ("X", "Y") for r in (False, True)]
